@@ -108,7 +108,7 @@ def run(ctx):
     recs = pc.run_scripts(ctx, scripts, workers=8)
 
     # ---- leg C
-    rej = pc.validate(ctx, recs[:narrow], TRACE_CFG, "C09", max_reject=12)
+    rej = pc.validate(ctx, recs[:narrow], TRACE_CFG, "C09", max_reject=5)
     rej_w = pc.validate(ctx, recs[narrow:], TRACE_CFG_WIDE, "C09 (limit 64)", max_reject=4)
     rej += [(i + narrow, s, info) for i, s, info in rej_w]
     pc.report(ctx, recs, rej)
